@@ -73,6 +73,9 @@ impl CssData {
         }
         if compressed && result.last() == Some(&b';') {
             result.pop();
+            while result.last() == Some(&b'\n') {
+                result.pop();
+            }
         }
         if !result.is_empty() {
             result.push(b'\n');
